@@ -12,7 +12,8 @@ RULE = ("one case = (image size, content class, target, mipmaps on/off, mip filt
         "from the larger side; (c) an independent reader of the raw header bytes checks every non-empty (offset,size) pair lies inside the file behind the header/palette/JPEG header, "
         "pairs pairwise disjoint, one pair per level, each holding exactly that level's bytes (BLP0: external file count and sizes); (d) raw3: blp_to_image level 0 == source RGBA "
         "exactly; raw1: each decoded colour is in the 256-entry palette read from the file bytes and is the entry its stored index selects, decoded alpha is one of the two "
-        "representable levels neighbouring source*(2^d-1)/255, a function of the source alpha, monotone; JPEG/DXT: structure only. A case is trivial if the converter or encoder "
+        "representable levels neighbouring source*(2^d-1)/255, a function of the source alpha, monotone; every level below level 0 of a raw1/raw3 chain is decoded too (palette "
+        "membership + stored index, alpha / channel values inside what a resampling of the source can give); JPEG/DXT: structure only. A case is trivial if the converter or encoder "
         "refuses the combination (tallied per target; none did). distinct = distinct (target, mip, WxH, content, filter) tuples run.")
 ASSUME = [
     "'quantised to the declared depth' is read as: the decoded alpha is the 8-bit expansion of floor or ceil of a*(2^d-1)/255 (this admits floor, round and ceil), the same for equal "
@@ -20,7 +21,11 @@ ASSUME = [
     "alpha_d*_consistent_with_{floor,round,ceil} report how many pixels agree with each rule",
     "source pixels of a DynamicImage are its to_rgba8() view (sources are Rgba8 or Rgb8 only, so this conversion is exact)",
     "raw1 additionally requires decoded colour == palette[stored index] (definition of a palettised encoding; stronger than bare membership, cannot fail for a correct decoder)",
-    "the raw3 pixel law and the raw1 laws are checked on level 0 only (the source of lower levels is the library's own resampling)",
+    "the exact raw3 pixel law and the exact raw1 alpha law (neighbouring level, function of the source alpha, monotone) are checked on level 0; the source of the levels below is the "
+    "library's own resampling, so for them only resampler-independent consequences are demanded: raw1 colours are entries of the same palette and the entry the level's stored index "
+    "selects; raw1 alpha is a representable level and - for filters without negative weights (nearest, triangle, gaussian) or a constant source plane - lies between the "
+    "quantisations of the smallest and largest source alpha; with the nearest filter it is the quantisation of an alpha that occurs in the source; raw3 channels lie inside the "
+    "source channel's range under the same filter condition (counters lower_level_*, raw1_lower_level*, raw3_lower_level*)",
     "an encoder Err of kind InvalidOffset / InvalidMipmapSize on a texture produced by image_to_blp counts as a violation (the converter's own layout is inconsistent); "
     "other converter/encoder errors are refusals and are tallied (convert_refused|*, encode_refused|*)",
     "JPEG and DXT are lossy: only structure (level count, sizes, decodability, decoded dimensions) is checked",
